@@ -123,7 +123,7 @@ class C02(PropertyCheck):
         def lit(n):
             return f'(-{-n})' if n < 0 else str(n)
         for k in range(24 if tier == 'quick' else 200):
-            x = rng.choice([2 ** 63, 2 ** 64, 2 ** 70, 10 ** 30, 2 ** 127, rng.randint(2 ** 63, 2 ** 100)])
+            x = rng.choice([2 ** 63, 2 ** 64, 2 ** 70, 10 ** 30, 2 ** 120, rng.randint(2 ** 63, 2 ** 100)])
             sm = rng.choice([0, 1, -1, 5, -7, 1000, rng.randint(-1000, 1000)])
             shape = rng.randrange(4)
             a, b, op = [(x + sm, -x, '+'), (x + sm, x, '-'), (-x, x + sm, '+'), (x, x - sm, '-')][shape]
